@@ -540,14 +540,15 @@ Definition scope_begin : M unit :=
   fun s => ROk tt (set_scopes (cs_locals s) (cs_upvalues s) (map_hd (fun d => (d + 1)%Z) (cs_depth s)) s).
 
 (* pops the locals deeper than [d] from the end of [ls] (given reversed); returns the survivors
-   (reversed) and the instructions to emit *)
+   (reversed) and the instructions to emit.  d723a2c: CloseUpvalue carries `locals.len() as u32`
+   read AFTER the variable was popped, i.e. the slot index of the variable in its frame. *)
 Fixpoint pop_locals (rls : list local) (d : Z) : list local * list instr :=
   match rls with
   | [] => ([], [])
   | l :: r =>
       if (d <? l_depth l)%Z then
         let '(r', is) := pop_locals r d in
-        (r', (if l_captured l then ICloseUpvalue else IPop) :: is)
+        (r', (if l_captured l then ICloseUpvalue (N.of_nat (length r)) else IPop) :: is)
       else (rls, [])
   end.
 (* each with `trace.insert(bytecode.len(), trace.clone())`, trace = self.trace() of scope_end's caller *)
@@ -597,13 +598,20 @@ Definition mark_captured (ls : list local) (i : nat) : list local :=
   | None => ls
   end.
 
+Fixpoint rfind_index {A} (p : A -> bool) (l : list A) (i : nat) (acc : option nat) : option nat :=
+  match l with
+  | [] => acc
+  | x :: r => rfind_index p r (S i) (if p x then Some i else acc)
+  end.
+
 (* resolve_upvalue(name, function_id) on the stacks [locs] = locals[function_id], locals[function_id-1], ...
-   and [ups] likewise.  None = Err(TooManyUpvalues). *)
+   and [ups] likewise.  None = Err(TooManyUpvalues).  The enclosing function's locals are searched
+   last to first (53336fc), like resolve_var. *)
 Fixpoint resolve_upvalue (name : str) (locs : list (list local)) (ups : list (list upvalue))
   : option (variable * list (list local) * list (list upvalue)) :=
   match locs, ups with
   | cur :: ((parent :: rest) as below), ucur :: ubelow =>
-      match find_index (fun l => str_eqb (l_name l) name) parent 0 with
+      match rfind_index (fun l => str_eqb (l_name l) name) parent 0 None with   (* 53336fc: .rev() *)
       | Some i =>
           match add_upvalue ucur (N.of_nat i mod 256) true with
           | Some (k, ucur') => Some (VUpvalue k, cur :: mark_captured parent i :: rest, ucur' :: ubelow)
@@ -621,12 +629,6 @@ Fixpoint resolve_upvalue (name : str) (locs : list (list local)) (ups : list (li
           end
       end
   | _, _ => Some (VGlobal, locs, ups)            (* function_id == 0 *)
-  end.
-
-Fixpoint rfind_index {A} (p : A -> bool) (l : list A) (i : nat) (acc : option nat) : option nat :=
-  match l with
-  | [] => acc
-  | x :: r => rfind_index p r (S i) (if p x then Some i else acc)
   end.
 
 Definition resolve_var (name : str) : M variable :=
